@@ -139,6 +139,7 @@ func c05RealGen(t *rapid.T) c05RealCase {
 func TestVerif_C05real(t *testing.T) {
 	k := verifkit.Start(t, "C05")
 	prop := c05RealProp(k)
-	k.Regress(t, func(sub string, raw json.RawMessage) error { return nil })
+	k.Special = "real-clock"
+	k.Regress(t, func(sub string, raw json.RawMessage) error { return verifkit.Decode(raw, prop) })
 	verifkit.Rapid(k, t, "real-clock-reruns(old timer semantics)", k.N(1, 12), c05RealGen, prop)
 }
